@@ -60,6 +60,12 @@ func stageHarness() (string, error) {
 		if err := os.WriteFile(filepath.Join(stage, dir, "zz_verif_api.go"), []byte(body), 0o644); err != nil {
 			return stage, err
 		}
+		if dir == "prometheus" {
+			if pt, err := os.ReadFile(filepath.Join(src, "api_prom.go.tmpl")); err == nil {
+				body := strings.Replace(string(pt), "package PKG", "package "+pkg, 1)
+				os.WriteFile(filepath.Join(stage, dir, "zz_verif_api_prom.go"), []byte(body), 0o644)
+			}
+		}
 	}
 	return stage, nil
 }
